@@ -24,8 +24,9 @@ class GzipMiddleware(Middleware):
 
         # https://connect.microsoft.com/IE/feedback/details/1795907/content-encoding-gzip-in-response-header-is-missing-on-ie11
         if 'msie' in (request.user_agent.browser or ''):
-            if not (resp.content_type.startswith('text/') or
-                    'javascript' in resp.content_type):
+            content_type = resp.content_type or ''  # may be absent
+            if not (content_type.startswith('text/') or
+                    'javascript' in content_type):
                 return resp
 
         if resp.is_streamed:
